@@ -67,7 +67,7 @@ Definition mismatches_s := mismatches ok_s.
 (* ---------- (b) produce requests measured at the mock broker ---------- *)
 Record breq := { br_batches : list (Z * Z * list Z); br_wire : Z }.   (* (topic, partition, message ids in order) *)
 Record bcase := { bc_cfg : cfg; bc_msgs : list msg; bc_fate : list (Z * Z); bc_reqs : list breq }.
-   (* bc_fate: (message id, 0 delivered | 1 rejected: headers | 2 rejected: too large) *)
+   (* bc_fate: (message id, 0 delivered | 1 rejected: headers | 2 rejected: too large | 9 failed after the dispatcher) *)
 
 Fixpoint find_msg (id : Z) (ms : list msg) : option msg :=
   match ms with [] => None | m :: r => if Z.eqb (m_id m) id then Some m else find_msg id r end.
@@ -92,7 +92,8 @@ Definition req_ok (c : cfg) (ms : list msg) (r : breq) : bool :=
   end.
 Definition fate_ok (c : cfg) (ms : list msg) (f : Z * Z) : bool :=
   match find_msg (fst f) ms with
-  | Some m => Z.eqb (verdict_code (dispatcher_check c m)) (snd f)
+  | Some m => Z.eqb (verdict_code (dispatcher_check c m)) (snd f) ||
+              (Z.eqb (snd f) 9 && Z.eqb (verdict_code (dispatcher_check c m)) 0)
   | None => false
   end.
 Definition ok_b (x : bcase) : bool :=
@@ -101,7 +102,9 @@ Definition ok_b (x : bcase) : bool :=
 Definition mismatches_b := mismatches ok_b.
 
 (* ---------- (c) is the buffer flushed without further input? ---------- *)
-Record fcase := { fc_cfg : cfg; fc_msgs : list msg; fc_flushed : bool }.
+(* rounds of messages; after each round the harness waits (no further input) until everything sent so far is
+   acknowledged, or gives up; fc_flushed: per attempted round, whether it was flushed (the run stops at the first false) *)
+Record fcase := { fc_cfg : cfg; fc_rounds : list (list msg); fc_flushed : list bool }.
 
 Definition st (x : bstate * list output) : bstate := fst x.
 Definition take_if_enabled (c : cfg) (s : bstate) : bstate :=
@@ -120,13 +123,29 @@ Fixpoint feed_lazy (c : cfg) (s : bstate) (ms : list msg) : bstate :=
   | [] => s
   | m :: r => feed_lazy c (take_if_pending c (st (step c s (EvMsg m false)))) r
   end.
-(* no further input: the bridge is free, the timer may fire *)
-Definition drains (c : cfg) (s : bstate) : bool :=
-  let s1 := take_if_enabled c s in
-  let s2 := if enabled s1 EvTimer then take_if_enabled c (st (step c s1 EvTimer)) else s1 in
-  is_empty (b_buf s2) && match b_pending s2 with None => true | Some _ => false end.
+(* no further input: the bridge is free, the timer may fire; the state afterwards *)
+Definition drain (c : cfg) (s : bstate) : bstate :=
+  let s1 := take_if_enabled c (take_if_enabled c s) in
+  if enabled s1 EvTimer then take_if_enabled c (take_if_enabled c (st (step c s1 EvTimer))) else s1.
+Definition drained (s : bstate) : bool :=
+  is_empty (b_buf s) && match b_pending s with None => true | Some _ => false end.
+
+(* Some l: the per-round verdicts, when they do not depend on how busy the bridge is; None: schedule dependent *)
+Fixpoint rounds_verdict (c : cfg) (se sl : bstate) (rs : list (list msg)) : option (list bool) :=
+  match rs with
+  | [] => Some []
+  | ms :: rest =>
+    let se' := drain c (feed_eager c se ms) in
+    let sl' := drain c (feed_lazy c sl ms) in
+    if Bool.eqb (drained se') (drained sl') then
+      if drained se' then
+        match rounds_verdict c se' sl' rest with Some l => Some (true :: l) | None => None end
+      else Some [false]
+    else None
+  end.
 Definition ok_f (x : fcase) : bool :=
-  let e := drains (fc_cfg x) (feed_eager (fc_cfg x) binit (fc_msgs x)) in
-  let l := drains (fc_cfg x) (feed_lazy (fc_cfg x) binit (fc_msgs x)) in
-  if Bool.eqb e l then Bool.eqb (fc_flushed x) e else true.
+  match rounds_verdict (fc_cfg x) binit binit (fc_rounds x) with
+  | Some l => list_eqb Bool.eqb l (fc_flushed x)
+  | None => true
+  end.
 Definition mismatches_f := mismatches ok_f.
